@@ -17,7 +17,7 @@ CHECKS = {
         "run by Coq-evaluated exact comparison with the running implementation (exhaustive small grid + random large values) and the "
         "property predicate is run on the implementation's own output.",
         "Trusted: Coq kernel + vm_compute; translator (tools/imp2v.py, tools/py2v_batch.py, fail-closed); harness observation of task lists; "
-        "Python ints = Z. run_worker's n_samples/n_batches selection is a hand model (Model/BatchSpec.v) tied by correspondence only.",
+        "Python ints = Z. run_worker is regenerated too (tools/py2v_runworker.py -> Gen/RunWorkerGen.v, fail-closed on any other statement form): Props/C16g.v proves the generated row/batch counts equal the hand model (Model/BatchSpec.v) and that the tasks handed to pool.map form the chain of C16_chain over the generated batch_tasks; results are collected in task order.",
         "DESIGN.md 3 (C16)",
     ),
 }
